@@ -35,7 +35,7 @@ ASSUMPTIONS = [
     "the process-wide registry is saved at the start of each case and restored at teardown",
     "RFC 3339 generator follows section 5.6 (date-fullyear 4DIGIT, T/t, Z/z, 1+ fraction digits, numeric offset +-00:00..23:59)",
 ]
-BUDGET = {"quick": (60, 20, 500), "thorough": (800, 40, 8000)}  # machines, steps, builtin examples
+BUDGET = {"quick": (160, 20, 1500), "thorough": (1200, 40, 12000)}  # machines, steps, builtin examples
 
 NAMES = ["uuid", "date-time", "my_format", "email", "x", "", "ipv4", "日付", "a b", "UUID", "date_time"]
 PREDS = [("always",), ("never",), ("len_mod", 2, 0), ("len_mod", 3, 1), ("contains", "a"), ("contains", "-")]
